@@ -13,7 +13,7 @@ from vf.rec import Rec
 PROPERTY = 'C14'
 LEVEL = 'exploration'
 RULE = ('limit M in {1,2,16,100,4096,10^6} x length in {0,1,M-2..M+2,2M,10M} '
-        'x {text,binary} x declared length {<,=,> actual} x path {POST, first '
+        'x {text,binary} x declared length {<,=,> actual, no Content-Length} x path {POST, first '
         'frame of a websocket-only session, steady-state frame after upgrade, '
         'probe frame, UPGRADE-position frame, POST mid-upgrade} x packets per '
         'body 0..18 (plain and d= form-encoded) with max_decode_packets in '
@@ -25,7 +25,8 @@ ASSUMPTIONS = ['lengths are bytes for bodies and binary frames, characters '
                'for text frames; boundary cases use ASCII so both agree',
                'frames on the upgrade socket are governed by C06; here they '
                'only must never reach the app']
-REQUIRED = ['post_limit', 'frame_limit', 'reader_bound', 'exact_limit_accepted',
+REQUIRED = ['post_limit', 'post_without_length', 'frame_limit', 'reader_bound',
+            'exact_limit_accepted',
             'packet_count_bound']
 SHARD_TIMEOUT = {'quick': 400, 'thorough': 3000}
 
@@ -90,12 +91,44 @@ def _run(rec, sim, case, M, L, binary, decl, path, srv, V):
         if body is None:
             return
         declared = {'eq': len(body), 'lt': max(0, len(body) - 1),
-                    'gt': len(body) + 1}[decl]
+                    'gt': len(body) + 1, 'none': None}[decl]
         n0 = len(sim.events)
         # a real client keeps a poll pending; without one the error path of
         # an oversize POST runs into known finding K1 (C15's subject)
         pending = sim.poll(h) if path == 'post' else None
         sim.quiesce()
+        if declared is None:
+            # no Content-Length at all (e.g. a chunked upload): nothing is
+            # "declared larger", but nothing oversize may reach the app and no
+            # more than the limit may be read
+            q = {'transport': 'polling', 'EIO': '4', 'sid': h.sid}
+            if srv == 'T':
+                t = sim.request('POST', q, {}, body=body,
+                                env_override={'CONTENT_LENGTH': None})
+            else:
+                t = sim.request('POST', q, {'content-length': None},
+                                body=body)
+            sim.quiesce()
+            rec.count('post_without_length')
+            rec.key(key)
+            msgs = [e for e in sim.events[n0:] if e['ev'] == 'message']
+            for m in msgs:
+                d = m['data']
+                if isinstance(d, (str, bytes)) and len(d) > M:
+                    V('oversize-data-reached-app', 'handler got %d units > '
+                      'limit %d from a POST without Content-Length' % (
+                          len(d), M))
+            if srv == 'T':
+                asked = sum(r if (r is not None and r >= 0) else 10 ** 12
+                            for r in t.reads)
+                if asked > M:
+                    V('reader-over-bound', 'body reader asked for %r bytes '
+                      '(reads %r) of a body without Content-Length, limit %d'
+                      % (asked, t.reads, M))
+            if not t.done:
+                V(scen.hang_signature(sim, t), 'POST without Content-Length '
+                  'never answered: %s' % scen.hang_signature(sim, t))
+            return
         t = sim.post(h, body, declared=declared)
         sim.quiesce()
         rec.count('post_limit')
@@ -267,8 +300,8 @@ def all_cases(tier, seed):
                 for srv in ('T', 'A'):
                     for path in ('post', 'post-mid-upgrade', 'ws-first',
                                  'ws-steady', 'ws-probe', 'ws-upgrade'):
-                        decls = ['eq', 'lt', 'gt'] if path.startswith(
-                            'post') else ['eq']
+                        decls = ['eq', 'lt', 'gt', 'none'] if \
+                            path.startswith('post') else ['eq']
                         for d in decls:
                             cases.append({'kind': 'size', 'M': M, 'L': L,
                                           'binary': binary, 'decl': d,
@@ -280,7 +313,7 @@ def all_cases(tier, seed):
             cases.append({'kind': 'size', 'M': M,
                           'L': rng.randint(0, 3 * M + 3),
                           'binary': rng.random() < 0.5,
-                          'decl': rng.choice(['eq', 'lt', 'gt']),
+                          'decl': rng.choice(['eq', 'lt', 'gt', 'none']),
                           'path': rng.choice(['post', 'post-mid-upgrade',
                                               'ws-first', 'ws-steady']),
                           'srv': rng.choice('TA'),
